@@ -80,7 +80,8 @@ Theorem triage_constant_is_large_enough :
 Proof. exact triage_const_ok. Qed.
 Print Assumptions triage_constant_is_large_enough.
 
-Theorem stable_multiplier_is_large_enough : ffinite detErrMul = true /\ D2R K_STABLE <= FR detErrMul.
+Theorem stable_multiplier_is_large_enough : ffinite detErrMul = true /\ D2R K_STABLE <= FR detErrMul /\
+  ffinite minNoUnderflowErr = true /\ D2R K_STABLE_MIN <= FR minNoUnderflowErr.
 Proof. exact stable_const_ok. Qed.
 Print Assumptions stable_multiplier_is_large_enough.
 
@@ -94,36 +95,33 @@ Proof. exact triage_sound. Qed.
 Print Assumptions triage_sign_never_wrong.
 
 Theorem stable_sign_never_wrong : H_STABLE_DET -> forall a b c, unit_pt a -> unit_pt b -> unit_pt c ->
-  stable_ok a b c -> s2_stableSign a b c <> 0%Z -> s2_stableSign a b c = sgnR (detR a b c).
+  s2_stableSign a b c <> 0%Z -> s2_stableSign a b c = sgnR (detR a b c).
 Proof. exact stable_sound. Qed.
 Print Assumptions stable_sign_never_wrong.
 
-(** FINDING (KNOWN_FINDINGS.jsonl kind stableSign.underflow). The property sentence "RobustSign
-    returns the sign of the exact determinant whenever it is non-zero", at full strength over all
-    unit-length float64 points, is FALSE of the unchanged code: *)
-Theorem robust_sign_is_sign_of_nonzero_determinant_refuted :
+(** REPAIRED FINDING (KNOWN_FINDINGS.jsonl: fixed bfbf523, kind stableSign.underflow). Before the
+    repair stableSign had no lower limit on its error bound; for that variant ([robust_sign_old],
+    [H_STABLE_DET_OLD]) the sentence "RobustSign returns the sign of the exact determinant" was
+    false — the witness is kept: *)
+Theorem robust_sign_is_sign_of_nonzero_determinant_old_refuted :
   exists a b c, unit_pt a /\ unit_pt b /\ unit_pt c /\
-    detR a b c <> 0 /\ robust_sign a b c <> sgnR (detR a b c).
-Proof. exact robust_sign_det_refuted. Qed.
-Print Assumptions robust_sign_is_sign_of_nonzero_determinant_refuted.
+    detR a b c <> 0 /\ robust_sign_old a b c <> sgnR (detR a b c).
+Proof. exact robust_sign_det_old_refuted. Qed.
+Print Assumptions robust_sign_is_sign_of_nonzero_determinant_old_refuted.
 
-(** and the unguarded hypothesis about stableSign it would need is refuted by the same witness *)
-Theorem stable_sign_unguarded_refuted : ~ H_STABLE_DET_ALL.
-Proof. exact H_STABLE_DET_ALL_refuted. Qed.
-Print Assumptions stable_sign_unguarded_refuted.
+Theorem stable_sign_old_refuted : ~ H_STABLE_DET_OLD.
+Proof. exact H_STABLE_DET_OLD_refuted. Qed.
+Print Assumptions stable_sign_old_refuted.
 
-(** What does hold: the same statements under the guard [stable_ok a b c] — the error scale
-    sqrt(|e1|^2 |e2|^2) that stableSign computes is at least 2^-480, i.e. no two of the three
-    points are closer than about 1e-144 (the repair proposed for the Go code is to return
-    Indeterminate below such a threshold, which makes the guard vacuous). *)
+(** the repaired code: no guard on the inputs *)
 Theorem robust_sign_is_exact_sign : H_TRIAGE_DET -> H_STABLE_DET -> forall a b c,
-  unit_pt a -> unit_pt b -> unit_pt c -> stable_ok a b c ->
+  unit_pt a -> unit_pt b -> unit_pt c ->
   robust_sign a b c = if identical2 a b c then 0%Z else exact_sign a b c.
 Proof. exact robust_sign_spec. Qed.
 Print Assumptions robust_sign_is_exact_sign.
 
 Theorem robust_sign_is_sign_of_nonzero_determinant : H_TRIAGE_DET -> H_STABLE_DET -> forall a b c,
-  unit_pt a -> unit_pt b -> unit_pt c -> stable_ok a b c ->
+  unit_pt a -> unit_pt b -> unit_pt c ->
   detR a b c <> 0 -> robust_sign a b c = sgnR (detR a b c).
 Proof. exact robust_sign_det. Qed.
 Print Assumptions robust_sign_is_sign_of_nonzero_determinant.
@@ -134,14 +132,12 @@ Proof. exact robust_sign_zero_iff. Qed.
 Print Assumptions robust_sign_zero_iff_two_identical.
 
 Theorem robust_sign_rotation : H_TRIAGE_DET -> H_STABLE_DET -> forall a b c,
-  unit_pt a -> unit_pt b -> unit_pt c -> stable_ok a b c -> stable_ok b c a ->
-  robust_sign b c a = robust_sign a b c.
+  unit_pt a -> unit_pt b -> unit_pt c -> robust_sign b c a = robust_sign a b c.
 Proof. exact robust_sign_rotate. Qed.
 Print Assumptions robust_sign_rotation.
 
 Theorem robust_sign_swap_negates : H_TRIAGE_DET -> H_STABLE_DET -> forall a b c,
-  unit_pt a -> unit_pt b -> unit_pt c -> stable_ok a b c -> stable_ok c b a ->
-  robust_sign c b a = (- robust_sign a b c)%Z.
+  unit_pt a -> unit_pt b -> unit_pt c -> robust_sign c b a = (- robust_sign a b c)%Z.
 Proof. exact robust_sign_swap. Qed.
 Print Assumptions robust_sign_swap_negates.
 
